@@ -138,3 +138,4 @@ def check(ctx):
     # dependency: the CoroutineLocal is created fresh by every spawn and freed when the coroutine is destroyed (rules owned by C13's stack-reuse clause)
     ctx.import_rules("C13", r"^(local-freed|fresh-local|fresh-local-attached|pooled-stack-reinitialised|recycle-only-default-size|pooled-stack-only-for-default-size|own-stack-for-other-sizes)$")
     ctx.import_rules("C01", r"^recycle-only-when-finished$|^trigger-before-recycle$|^no-silent-drop:GeneratorObj$")
+    shared.local_init_runs_unborrowed(ctx)
